@@ -61,6 +61,9 @@ CLASSES = {
         ("insync", 12, 1, 1, 1, "o.setCommonFlag(MessageHeader::CommonFlags::insync, {v} != 0)", "(o.getCommonFlag(MessageHeader::CommonFlags::insync) ? 1 : 0)"),
         ("segmentType", 12, 1, 2, 2, "o.setSegmentType(static_cast<MessageHeader::SegmentType>(({v}) << 2))",
          "(static_cast<unsigned long long>(o.getSegmentType()) >> 2)"),
+        # the two segment bits written through the generic flag setter with the two-bit mask `seg`: both bits set or both cleared
+        ("segMask", 12, 1, 2, 2, "o.setCommonFlag(MessageHeader::CommonFlags::seg, {v} != 0)", "(static_cast<unsigned long long>(o.getSegmentType()) >> 2)",
+         "values:0,3"),
         ("diOnIf", 12, 1, 4, 1, "o.setCommonFlag(MessageHeader::CommonFlags::diOnIf, {v} != 0)", "(o.getCommonFlag(MessageHeader::CommonFlags::diOnIf) ? 1 : 0)"),
         ("overflow", 12, 1, 5, 1, "o.setCommonFlag(MessageHeader::CommonFlags::overflow, {v} != 0)", "(o.getCommonFlag(MessageHeader::CommonFlags::overflow) ? 1 : 0)"),
         ("errorInPayload", 12, 1, 6, 1, "o.setCommonFlag(MessageHeader::CommonFlags::errorInPayload, {v} != 0)",
@@ -136,6 +139,8 @@ CLASSES = {
         simple("interfaceId", 14, 4), simple("vendorId", 18, 2), simple("commonFlags", 20, 1),
         ("recalc", 20, 1, 0, 1, "o.setCommonFlag(MessageHeader::CommonFlags::recalc, {v} != 0)", "(o.getCommonFlag(MessageHeader::CommonFlags::recalc) ? 1 : 0)"),
         ("insync", 20, 1, 1, 1, "o.setCommonFlag(MessageHeader::CommonFlags::insync, {v} != 0)", "(o.getCommonFlag(MessageHeader::CommonFlags::insync) ? 1 : 0)"),
+        ("segMask", 20, 1, 2, 2, "o.setCommonFlag(MessageHeader::CommonFlags::seg, {v} != 0)", "((static_cast<unsigned long long>(o.getCommonFlags()) >> 2) & 3)",
+         "values:0,3"),
         ("diOnIf", 20, 1, 4, 1, "o.setCommonFlag(MessageHeader::CommonFlags::diOnIf, {v} != 0)", "(o.getCommonFlag(MessageHeader::CommonFlags::diOnIf) ? 1 : 0)"),
         ("overflow", 20, 1, 5, 1, "o.setCommonFlag(MessageHeader::CommonFlags::overflow, {v} != 0)", "(o.getCommonFlag(MessageHeader::CommonFlags::overflow) ? 1 : 0)"),
         ("errorInPayload", 20, 1, 6, 1, "o.setCommonFlag(MessageHeader::CommonFlags::errorInPayload, {v} != 0)",
